@@ -320,9 +320,11 @@ fn joint_xml(r: &mut Rng, u: &URDFParameters, lay: &Layout, names: &[String; 6])
 
 fn decorate(r: &mut Rng, k: usize) -> String {
     let n = k + 1;
-    match r.below(11) {
+    match r.below(13) {
         // literal prefixes that contain the infix text between "joint" and the number
         8 => format!("arm_joint_a{}", n), 9 => format!("kuka_kr6_joint_a{}", n), 10 => format!("cell_a_joint_a{}", n),
+        // macro arguments whose own name contains "joint"
+        11 => format!("${{joint_prefix}}joint_{}", n), 12 => format!("${{arm_joint_ns}}_joint{}", n),
         0 => format!("joint{}", n), 1 => format!("joint_{}", n), 2 => format!("JOINT_{}", n), 3 => format!("${{prefix}}joint_{}", n),
         4 => format!("left_Joint-{}", n), 5 => format!("${{prefix}}JOINT_{}!", n), 6 => format!("robot1_joint_a{}", n), _ => format!("Joint {}", n),
     }
@@ -332,7 +334,7 @@ pub fn c20(seed: u64, n: usize) {
     let mut r = Rng::new(seed ^ 0xC20);
     // joint-name simplification against the hand-written equivalent of the regexes
     let pieces = ["joint", "Joint", "JOINT", "_", "-", "1", "2", "6", "12", "a", "link", "${prefix}", "${p}", "${", "}", "left", "tool0", " ", "!", ".", "x", "jointjoint", "$", "{x}",
-                  "joint_a", "arm_", "kuka_kr6_", "cell_a_", "joint_a1", "_a", "a_"];
+                  "joint_a", "arm_", "kuka_kr6_", "cell_a_", "joint_a1", "_a", "a_", "${joint_prefix}", "${jointPrefix}", "${arm_joint_ns}_"];
     for _ in 0..(2 * n).max(200) {
         let k = 1 + r.below(6);
         let mut s = String::new();
